@@ -402,7 +402,90 @@ def c08():
                 ASSUME_TRACE + ["the image builder produces specification-valid volumes (checked: TLC evaluates the structural invariants on every built image, C08.valid_input)"])
 
 
-CHECKS = {"C08": c08, "C15": c15, "C16": c16, "C18": c18, "C06": c06, "C07": c07, "C09": c09, "C14": c14, "C01": c01, "C02": c02, "C03": c03, "C04": c04, "C05": c05, "C12": c12, "C13": c13}
+def small_foreign(rng, ft=12, **kw):
+    """small builder volume that can be filled to exhaustion"""
+    bps = rng.choice([512, 1024])
+    n = rng.randrange(24, 70) if ft == 12 else (4085 if ft == 16 else 65525)
+    vol = {"kind": "builder", "ft": ft, "bps": bps, "spc": 1, "n": n, "nfats": rng.choice([1, 2, 3]), "pad": rng.choice(["zero", "eoc"]),
+           "extra_fat_sectors": rng.choice([0, 1]), "rootn": 32 * (bps // 512), "tail": 4096, "rsvd": rng.choice([1, 3]) if ft != 32 else 32,
+           "tree": [{"kind": "f", "name": "seed file.txt", "sfn": "SEED~1  TXT", "size": bps + 1, "pat": 9}]}
+    if ft == 32:
+        vol["hi"] = "pattern"
+        vol["free_hi"] = rng.choice([0, 0xA])
+        if vol["nfats"] > 1 and rng.random() < 0.6:
+            vol["mirror"] = False
+            vol["active"] = rng.randrange(vol["nfats"])
+    vol.update(kw)
+    return vol, bps
+
+
+def c10():
+    t0 = time.time()
+    wd = workdir("C10")
+    rng = rng_for("C10", 0)
+    progs = fam_foreign("C10", scale(12, 150), n_ops=10)
+    for i in range(scale(12, 120)):
+        vol, cs = small_foreign(rng, 12)
+        progs.append(gen.fill_program(rng, "c10-fill-%d" % i, {"vol": vol}, cs, rounds=2, use_dirs=(i % 2 == 0)))
+    for i in range(scale(6, 60)):
+        vol, cs = small_foreign(rng, 32)
+        progs.append(gen.ns_program(rng, "c10-ns32-%d" % i, {"vol": vol}, 30, gen.NAMES_ASCII))
+        vol, cs = small_foreign(rng, 16)
+        progs.append(gen.io_program(rng, "c10-io16-%d" % i, {"vol": vol}, cs, 30))
+    res = [("copies", core.campaign("copies", progs, wd, n_shards=14))]
+    res.append(("own", core.campaign("own", fam_fill("C10", ["K1b", "K2"], scale(4, 40)) + fam_ns("C10", ["K5", "K5b"], scale(6, 60), 40), wd)))
+    core.finish("C10", LEVEL, res, None, t0,
+                "histories on builder volumes with 1, 2 and 3 table copies, mirroring on and off with each active copy, FAT32 high nibbles set in used and "
+                "free entries, zero (free-looking) padding entries, filled to exhaustion; after every call TLC checks copies equal (mirroring) or inactive "
+                "copies untouched since mount, entries 0/1 unchanged, padding entries unchanged and never allocated, high nibbles preserved",
+                ASSUME_TRACE)
+
+
+def c11():
+    t0 = time.time()
+    wd = workdir("C11")
+    rng = rng_for("C11", 0)
+    progs = fam_foreign("C11", scale(10, 120), n_ops=10)
+    # own volumes embedded in a larger device, devices that transfer fewer bytes than asked (legal per the Read/Write contracts)
+    for kname in ["K1b", "K2", "K5"]:
+        base = gen.K(kname)
+        base = dict(base, vol=dict(base["vol"], tail=8192))
+        for i in range(scale(8, 80)):
+            cfg = dict(base, short=(rng.randrange(1, 1 << 30) if i % 2 == 0 else 0))
+            progs.append(gen.ns_program(rng, "c11-ns-%s-%d" % (kname, i), cfg, 30, gen.NAMES_ASCII))
+            progs.append(gen.io_program(rng, "c11-io-%s-%d" % (kname, i), cfg, CS[kname], 30))
+    for i in range(scale(6, 60)):
+        vol, cs = small_foreign(rng, 12)
+        progs.append(gen.fill_program(rng, "c11-fill-%d" % i, {"vol": vol, "short": rng.choice([0, rng.randrange(1, 1 << 30)])}, cs, rounds=2))
+    res = [("writes", core.campaign("writes", progs, wd, n_shards=14))]
+    core.finish("C11", LEVEL, res, None, t0,
+                "every device write of namespace, file-I/O and fill histories on own and builder volumes embedded in a larger device (guard bytes after the "
+                "declared end, filler in reserved sectors and boot code), with devices performing short transfers; each write is mapped to its region in u64 "
+                "arithmetic and TLC checks the region is permitted and that written clusters belong to the objects the call may change or were free",
+                ASSUME_TRACE)
+
+
+def c20():
+    t0 = time.time()
+    wd = workdir("C20")
+    rng = rng_for("C20", 0)
+    progs = []
+    kinds = ["4g", "1t", "2t", "limit4k"]
+    hints = ["last", "before_last", "past", "unknown", "4g", "1t", "2g"]
+    for k in kinds:
+        for h in hints:
+            progs.append(gen.large_program(rng, "large-%s-%s" % (k, h), k, h))
+    res = [("large", core.campaign("large", progs, wd, n_shards=14))]
+    core.finish("C20", LEVEL, res, None, t0,
+                "sparse builder volumes of 4 GiB, 1 TiB+, 2 TiB-512 B (512-byte sectors) and the FAT32 cluster limit with 4096-byte sectors, next-free hint "
+                "at / just before / just past the last cluster, unknown, and at the clusters around the 2 GiB, 4 GiB and 1 TiB byte marks; short histories "
+                "(create, write 3 clusters, flush, extents, read back, truncate, append to a foreign file, remove, statistics, remount) judged by the same "
+                "model and raw-image oracles; contents compared per half-cluster digest; no device access at or beyond the declared end",
+                ASSUME_TRACE + ["64-bit offset arithmetic of the decoder/region mapper (u64 in the harness) is correct"],
+                extra_prefixes=("C00.", "C02.", "C04.", "C05.nospace_legit", "C05.stats", "C05.fsinfo", "C11.beyond", "C11.region", "C03."))
+
+
+CHECKS = {"C20": c20, "C10": c10, "C11": c11, "C08": c08, "C15": c15, "C16": c16, "C18": c18, "C06": c06, "C07": c07, "C09": c09, "C14": c14, "C01": c01, "C02": c02, "C03": c03, "C04": c04, "C05": c05, "C12": c12, "C13": c13}
 
 
 def run(prop):
